@@ -70,7 +70,8 @@ def gen_queue(rng, tier, seed):
             ops.append(['flush', c])
         else:
             ops.append(['drain', c])
-    return {'B': B, 'nconn': nconn, 'via_host': via_host, 'ops': ops}
+    # an application that says good-bye from its 'disconnection' listener: a packet sent on the connection that is going away
+    return {'B': B, 'nconn': nconn, 'via_host': via_host, 'ops': ops, 'bye': bool(via_host) and rng.random() < 0.35}
 
 
 class _Stub:
@@ -84,8 +85,16 @@ class _Stub:
         self.seen: set[int] = set()
         self.batch = 0
         self.over_report_seen = False
+        self.dead: set[int] = set()
+        self.dropped: set[int] = set()
 
     def on_data(self, handle: int, pid: int) -> None:
+        if handle in self.dead:
+            # data for a connection the controller has already reported as gone: dropped on the floor, no buffer held, no
+            # completion report will ever name it
+            self.seen.add(pid)
+            self.dropped.add(pid)
+            return
         self.batch += 1
         if pid in self.seen:
             self.sim.violation('order:duplicate-send', f'packet {pid} handed over twice')
@@ -162,6 +171,18 @@ def run_queue(case):
 
             for hd in handles:
                 connect(hd)
+            bye_pids = []
+            if case.get('bye'):
+                def on_disc(handle, reason):
+                    pid = next_id[0]
+                    next_id[0] += 1
+                    bye_pids.append(pid)
+                    try:
+                        host.send_acl_sdu(handle, pid.to_bytes(4, 'big') + bytes(23))
+                    except Exception:
+                        bye_pids.pop()  # refused outright: nothing was queued
+                host.on('disconnection', on_disc)
+                sim.probe('listener_sends_on_the_connection_that_is_going_away')
         else:
             def send(pkt):
                 stub.on_data(pkt.connection_handle, parse_pid(pkt.data))
@@ -251,6 +272,7 @@ def run_queue(case):
                 enq_total += k
                 if via_host:
                     if not connected[hd]:
+                        stub.dead.discard(hd)
                         connect(hd)
                         connected[hd] = True
                     data = b''.join(pid.to_bytes(4, 'big') + bytes(23) for pid in pids)
@@ -290,9 +312,15 @@ def run_queue(case):
                 epoch[hd] += 1
                 if via_host:
                     if connected[hd]:
+                        nb = len(bye_pids)
+                        stub.dead.add(hd)
                         host.on_packet(bytes(hci.HCI_Disconnection_Complete_Event(
                             status=0, connection_handle=hd, reason=0x13)))
                         connected[hd] = False
+                        # what the listener queued on the dying connection is discarded with the rest (or was handed over at once
+                        # and its credit given back by the flush: the controller drops it, it holds no buffer)
+                        enq_total += len(bye_pids) - nb
+                        done_total += len(bye_pids) - nb
                 else:
                     q.flush(hd)
                 # a flush releases every waiter of the old epoch
